@@ -95,7 +95,10 @@ func (l *enumValueLoader) commentEnd(lex lexeme.LexEvent) {
 		panic(errors.ErrLoader)
 	}
 
-	l.enumConstraint.SetComment(l.lastIdx, lex.Value().String())
+	// A comment placed before the first item doesn't belong to any item.
+	if l.lastIdx < l.enumConstraint.Len() {
+		l.enumConstraint.SetComment(l.lastIdx, lex.Value().String())
+	}
 	l.stateFunc = l.annotationEnd
 }
 
